@@ -6,6 +6,8 @@ from .core import Path, SCHEMA
 from .expr import PathAbort, UNBOUND, VBoundStr, VBoundColl, MaybeUnbound
 
 MAX_INLINE_DEPTH = 12
+# specification functions read the model only: operation-object fields do not version them
+MODEL_CLASSES = {'Feature', 'Relation', 'FeatureModel', 'Attribute', 'Constraint', 'Cardinality', 'Domain', 'Range'}
 
 
 class CallMixin:
@@ -224,6 +226,10 @@ class CallMixin:
             if ctx.generic_depth > 0:
                 raise OutOfReach(f'non-functional contract of {fi.fid} used under a generic index')
             rk = con.result_kind
+            if isinstance(rk, str):
+                rk = self.ann_kind(ast.parse(rk, mode='eval').body, fi)
+            if rk is None and fi.node.returns is not None:
+                rk = self.ann_kind(fi.node.returns, fi)
             if rk is None:
                 raise OutOfReach(f'contract of {fi.fid} has neither functional clause nor result kind')
             result = ctx.fresh_val('res_' + fi.node.name, rk)
@@ -251,7 +257,8 @@ class CallMixin:
             outs = [(p.ret if p.ret is not None else VNone(), Path(p.pc, saved_env, p.heap)) for p in ends if p.exc is None]
             base = len(path.pc)
             if len(outs) == 1:
-                # keep only assumptions made during evaluation? none expected in spec text
+                # typing hypotheses assumed while evaluating specification text stay on the path
+                path.pc = outs[0][1].pc
                 return outs[0][0]
             r = outs[-1][0]
             for v, p in reversed(outs[:-1]):
@@ -276,11 +283,30 @@ class CallMixin:
         if name not in ctx.spec_recursive:
             ctx.spec_mode += 1
             try:
-                return self.call_inline_pure(fi, args, {}, path)
+                res = self.call_inline_pure(fi, args, {}, path)
             finally:
                 ctx.spec_mode -= 1
+            ann = fi.node.returns
+            if isinstance(res, (VSeq, VList)) and ann is not None and 'list[' in ast.unparse(ann) and not isinstance(res, VList):
+                if ctx.generic_depth == 0 and ctx.naming_off == 0 and z3.is_app(res.t) and res.t.num_args() > 0:
+                    # name the (possibly large) sequence term: S == term, so that quantified reasoning sees a constant
+                    key = ('named', res.t.get_id())
+                    if key not in ctx.recfuncs:
+                        ctx.recfuncs[key] = ctx.fresh('S_' + name, res.t.sort())
+                        # definitional extension by a fresh constant: globally valid
+                        ctx.axioms.append(ctx.recfuncs[key] == res.t)
+                        ctx.named_defs.append((ctx.recfuncs[key], res.t))
+                    S_ = ctx.recfuncs[key]
+                    named = VSeq(S_, res.elem_kind)
+                    res = named
+                if res.elem_kind and res.elem_kind[0] == 'ref':
+                    res.elems_nonnull = True
+                    self.assume_elems_nonnull(res, path)
+                    ctx.assumptions.add(f'typing: the elements of the list-valued specification function {name} are objects (not None); '
+                                        'validated natively by the bounded stand-in')
+            return res
         # recursive specification -> RecFunction over the current heap version
-        hkey = (name, tuple(sorted((k, v.name()) for k, v in path.heap.items())))
+        hkey = (name, tuple(sorted((k, v.name()) for k, v in path.heap.items() if k[0] in MODEL_CLASSES)))
         if hkey not in ctx.recfuncs:
             self.define_spec_rec(name, fi, path, hkey)
         decl, kinds, rk = ctx.recfuncs[hkey]
@@ -289,9 +315,27 @@ class CallMixin:
         if rk[0] == 'seq' and rk[1][0] == 'ref':
             # typing of a list-valued specification function: its elements are objects, not None
             res.elems_nonnull = True
+            self.assume_elems_nonnull(res, path)
             ctx.assumptions.add(f'typing: the elements of the list-valued specification function {name} are objects (not None); '
                                 'validated natively by the bounded stand-in')
         return res
+
+    def assume_elems_nonnull(self, res, path):
+        """typing hypothesis for one ground sequence term (not quantified over the arguments: no matching loop)"""
+        ctx = self.ctx
+        if ctx.generic_depth > 0 or ctx.naming_off > 0:
+            return
+        key = res.t.get_id()
+        if key in ctx.typed_seqs:
+            return
+        ctx.typed_seqs.add(key)
+        k = z3.Int('k!t')
+        el = self.seq_nth(res.t, k)
+        body = z3.Implies(z3.And(0 <= k, k < z3.Length(res.t)), el != ctx.sorts.null(res.elem_kind[1]))
+        try:
+            ctx.axioms.append(z3.ForAll([k], body, patterns=[el]))
+        except z3.Z3Exception:
+            ctx.axioms.append(z3.ForAll([k], body))
 
     def define_spec_rec(self, name, fi, path, hkey):
         ctx = self.ctx
@@ -299,7 +343,7 @@ class CallMixin:
         rk = self.ann_kind(fi.node.returns, fi)
         sorts = [ctx.sorts.sort_of(k) for k in kinds] + [ctx.sorts.sort_of(rk)]
         ctx.counter += 1
-        suffix = '' if not path.heap else f'@{ctx.counter}'
+        suffix = '' if not hkey[1] else f'@{ctx.counter}'
         decl = z3.RecFunction(f'{name}{suffix}', *sorts)
         ctx.recfuncs[hkey] = (decl, kinds, rk)
         formals = [z3.Const(f'{a.arg}!f', s) for a, s in zip(fi.node.args.args, sorts[:-1])]
@@ -317,6 +361,12 @@ class CallMixin:
             ctx.spec_mode -= 1
         z3.RecAddDefinition(decl, formals, body.t)
         ctx.spec_defs[name] = (decl, formals, body.t)
+        ret = fi.node.returns
+        if ret is not None and ast.unparse(ret).strip("'\"") == 'nat':
+            # typing of a natural-number valued specification function (validated natively)
+            app = decl(*formals)
+            ctx.axioms.append(z3.ForAll(formals, app >= 0, patterns=[app]))
+            ctx.assumptions.add(f'typing: the specification function {name} is natural-number valued (validated natively)')
 
     def ann_kind(self, ann, fi):
         """kind from a type annotation in specification text"""
@@ -326,7 +376,7 @@ class CallMixin:
             ann = ast.parse(ann.value, mode='eval').body
         if isinstance(ann, ast.Name):
             n = ann.id
-            if n == 'int':
+            if n in ('int', 'nat'):
                 return INT
             if n == 'bool':
                 return BOOL
